@@ -3,8 +3,9 @@
 The driver serializes, measures and deserializes values of the built-in serializable types (integers, floats incl.
 signed zero / infinities, bool, usize, strings with multi-byte UTF-8, byte vectors, nested vectors, PathBuf,
 SocketAddr, IpAddr, SystemTime before and after the epoch) and of a corpus of DbSerialize-derived types (named /
-tuple / unit structs, nested, enums with unit / tuple / struct / nested variants); DbValue, DbKeyValue, DbId, QueryId
-as opaque values. Codec.tla recomputes size and prefix / tag offsets from the hand-written framing tree."""
+tuple / unit structs, nested, enums with unit / tuple / struct / nested variants); DbValue (all variants), DbKeyValue,
+DbId, QueryId and the crate's query types (SearchQuery with nested conditions, insert / select / remove queries) as
+opaque values. Codec.tla recomputes size and prefix / tag offsets from the hand-written framing tree."""
 import os
 import time
 
